@@ -40,6 +40,19 @@ types
                                         instantiation metavariables (never printed)
   ("forall", a, kind, t)                kind in "ty" "rrows" "erows"
 Fields of record types / tags of enum types are kept sorted by name (type equality is structural).
+
+Entry points: std_signatures(exe), gen_valid(rng, sigs, size), gen_mutant(rng, sigs, size),
+classify(prog, answer_line), run_stream(ck, exe, n_valid, n_mutants, max_size), self_test(exe),
+`python3 -m checks.c01_gen <n> <seed> [max_size]` and `python3 -m checks.c01_gen --selftest`.
+
+Oracle (classify): an accepted program violates C01 when the interpreter answers TypeErr / NotAFunc /
+FieldMissing / NonExhaustive / UnboundId with a primary position inside a typed region of the program
+or inside the (typed) stdlib, TailAccess or positive blame whose label is one of the program's own
+typed annotations, or negative blame on a hole's contract with the offending value in typed code.
+FieldMissing of record/get and record/remove (absent dictionary key) is a value-dependent
+precondition, like out-of-bounds indices and division by zero.  The generator never lets untyped hole
+code call a typed closure of the enclosing block (holes only see first-order data variables): that
+is a separate, known way of reaching typed code with ill-typed values.
 """
 import glob
 import os
@@ -49,6 +62,18 @@ import time
 
 from vlib import core
 from checks import c01_sig as S
+
+GENERATOR_RULE = (
+    "type-directed generation: a random type T (Number/String/Bool/Dyn, Array, closed and `; Dyn` records, "
+    "dictionaries, enums with and without payload, arrows), then a term of type T built from literals, variables, "
+    "let (annotated or not, polymorphic with forall over types / record rows / enum rows, let rec), if, lambdas, "
+    "applications (local functions and every statically typed stdlib function whose result type matches, "
+    "signatures read from the running typechecker), operators, arrays, records, projections, dictionary access, "
+    "record-to-dictionary subsumption (also under Array), tags, variants, exhaustive matches (enum, literal with "
+    "default, guarded with default, record patterns), nested typed blocks, and holes `(u | T)` filled with untyped "
+    "code (1 in 7 deliberately violating T); printed as `(term : T)` / `let x : T = term in x` / a typed function "
+    "applied by untyped code, with the byte spans of typed and untyped regions; mutants: one of 13 local "
+    "mutations of a valid program")
 
 NUM, STR, BOOL, DYN = ("num",), ("str",), ("bool",), ("dyn",)
 FIELDS = ["a", "b", "c", "d", "foo", "bar", "x", "y"]
@@ -394,7 +419,7 @@ def std_function_at(offset):
 
 class Prog:
     __slots__ = ("src", "ast", "ty", "kind", "typed_regions", "untyped_regions", "own_annots", "hole_annots",
-                 "features", "size", "nodes", "std_used", "seed_note", "expect")
+                 "features", "size", "nodes", "std_used", "seed_note", "expect", "key_override")
 
     def __init__(self):
         self.src = ""
@@ -2071,6 +2096,9 @@ def node_at(prog, s, e):
     return best[1] if best else "?"
 
 
+VALUE_DEPENDENT_MATCH = {"match-literal-no-default", "match-guard-no-default"}
+
+
 def classify(prog, line):
     """-> (verdict, detail); verdict in ok | rejected | allowed-error | untyped-origin | violation | crash.
     For a violation, detail is the stable key of the failure class."""
@@ -2123,7 +2151,15 @@ def classify(prog, line):
         if f == "main":
             reg = region_of(prog, s, e)
             if reg == "typed":
-                return "violation", "%s:%s" % (cls, node_at(prog, s, e))
+                if cls == "UnboundId":
+                    return "violation", "UnboundId:typed-code"
+                where = node_at(prog, s, e)
+                if cls == "NonExhaustive" and where in VALUE_DEPENDENT_MATCH:
+                    # no arm matched although every enum case of the scrutinee's type has an arm: the
+                    # failure depends on the *value* (a constant pattern or a guard), which types do not
+                    # rule out (like an index out of bounds); counted, looked at, not a C01 violation
+                    return "allowed-error", "NonExhaustive:value-dependent:" + where
+                return "violation", "%s:%s" % (cls, where)
             return "untyped-origin", "%s:%s" % (cls, reg)
         if f == "std":
             return "violation", "%s:%s" % (cls, std_function_at(s))
@@ -2211,23 +2247,42 @@ def load_corpus():
     out = []
     for path in sorted(glob.glob(os.path.join(core.ROOT, "corpus", "C01", "*.case"))):
         expect = None
+        key = None
         for line in open(path):
             line = line.rstrip("\n")
             m = re.match(r"^#!\s*expect\s+(\S+)", line)
             if m:               # `#! expect <verdict>` applies to the following lines (informational)
                 expect = None if m.group(1) == "any" else m.group(1)
+                key = None
+            m = re.match(r"^#!\s*key\s+(\S+)", line)
+            if m:               # `#! key <k>`: a violation on the following lines is reported under this stable key
+                key = m.group(1)
             if not line.strip() or line.lstrip().startswith("#"):
                 continue
             p = corpus_prog(line)
             p.expect = expect
+            p.key_override = key
             out.append(p)
     return out
 
 
 # ----------------------------------------------------------------------------------------- stream
 
-def run_programs(exe, progs):
-    return S.run_robust(exe, ["ev,full\t" + S.esc(p.src) for p in progs])
+def run_programs(exe, progs, timeout=1800):
+    """One answer line per program.  A harness process that dies answers `ERR Crash` for the program
+    it was working on (c01_sig.run_robust); a shard that hangs is re-run program by program."""
+    import subprocess
+    lines = ["ev,full\t" + S.esc(p.src) for p in progs]
+    try:
+        return S.run_robust(exe, lines, timeout=timeout)
+    except subprocess.TimeoutExpired:
+        out = []
+        for l in lines:
+            try:
+                out += S.run_robust(exe, [l], timeout=120, shards=1)
+            except subprocess.TimeoutExpired:
+                out.append("ERR Crash -- harness did not answer within 120 s")
+        return out
 
 
 def shrink_candidates(ast):
@@ -2297,12 +2352,9 @@ def run_stream(ck, exe, n_valid, n_mutants, max_size, batch=2000, do_shrink=True
     t0 = time.time()
     summary = {"valid": 0, "valid_accepted": 0, "mutants": 0, "mutants_rejected": 0, "violations": 0, "parse_errors_valid": 0,
                "harness_s": 0.0, "programs": 0}
-    plan = [("corpus", None)] + [("valid", None)] * n_valid + [("mutant", None)] * n_mutants
-    corpus = load_corpus()
-    todo = list(corpus)
+    todo = list(load_corpus())
     kinds_left = ["valid"] * n_valid + ["mutant"] * n_mutants
     pos = 0
-    del plan
     sampled = {"ok": 0, "rejected": 0, "allowed-error": 0, "untyped-origin": 0, "mutant-accepted": 0}
     while todo or pos < len(kinds_left):
         while len(todo) < batch and pos < len(kinds_left):
@@ -2372,7 +2424,7 @@ def run_stream(ck, exe, n_valid, n_mutants, max_size, batch=2000, do_shrink=True
                 ck.sample("crash/panic (%s): %s => %s" % (stream, p.src[:800], line[:200]), limit=40)
             if verdict == "violation":
                 summary["violations"] += 1
-                key = detail
+                key = getattr(p, "key_override", None) or detail
                 ck.hist("c01gen_violation_keys", key)
                 small, small_line = (p, None)
                 if do_shrink and key not in summary.setdefault("reported_keys", set()):
